@@ -1,5 +1,6 @@
 """C14 -- access control admits exactly the authorised requests (spec/Auth.tla, driver auth)."""
 import json
+from concurrent.futures import ThreadPoolExecutor
 import engine as E
 
 HLS = ["a", "b", "hls"]
@@ -25,6 +26,22 @@ def signature(ev):
         return "Ra:%s:%s:%s:%s" % ("on" if ev["enable"] else "off", "Basic" if ev["method"] == 0 else "Digest",
                                    s["cred"] + ("/" + s["nonce"] if s["nonce"] else ""),
                                    "sdp" if s["sdp"] else "no_sdp")
+    if k == "Hp":
+        o, p = ev["obs"], ev["hp"]
+        canon = (p["prefix"] == "hls" and p["stream"] in ("cam1", "CAM1") and p["fname"] == "lower"
+                 and p["ext"] in ("m3u8", "ts") and p["slash"] == "none")
+        guarded = ev["cfg"] in ("hls", "all")
+        if ev["listed"]:
+            return "Hp:listed_address:%s" % ("served" if o["what"] != "none" else "other")
+        if o["what"] in ("playlist", "record") and guarded:
+            return "Hp:flag_on:%s:playlist_without_secret" % ("documented_path" if canon else "respelled_path")
+        if o["what"] == "none":
+            return "Hp:%s:documented_path_refused" % ("flag_on" if guarded else "flag_off")
+        return "Hp:%s:wrong_content" % ("flag_on" if guarded else "flag_off")
+    if k == "Sv":
+        o = ev["obs"]
+        got = "served" if (o["resp"] or o["listed"] or o["pub"]) else "refused"
+        return "Sv:%s:%s:%s" % (ev["pd"], "flag_on" if ev["on"] else "flag_off", got)
     if k == "Rd":
         if ev["served"] and not inside(ev["served"], HLS):
             return "Rd:served_outside_root"
@@ -36,23 +53,29 @@ def signature(ev):
             return "Wr:%s:deleted_outside_roots" % ev["proto"]
         return "Wr:%s:nothing_written" % ev["proto"]
     if k == "Kick":
-        return "Kick:%s:%s" % (ev["pd"], ev["which"])
+        return "Kick:%s:%s%s" % (ev["pd"], ev["which"], ":peer" if ev.get("peers") else "")
     return k
 
 
 def run(ctx):
     E.build_harness(ctx)
-    cfg = "MC_Auth_q.cfg" if ctx.quick else "MC_Auth_t.cfg"
-    res = E.tlc(ctx, "MC_Auth", cfg, timeout=1500, deadlock=False)
-    E.require_design_ok(ctx, res, cfg)
+    # the case kinds are independent (every case is one initial state and TLC computes initial states on one
+    # thread): three TLC runs side by side, each over its share of the kinds (MC_Auth_<tier>.cfg = all of them)
+    cfg = "MC_Auth_q" if ctx.quick else "MC_Auth_t"
+    parts = [cfg + "%d.cfg" % i for i in (1, 2, 3)]
+    with ThreadPoolExecutor(len(parts)) as ex:
+        ress = list(ex.map(lambda c: E.tlc(ctx, "MC_Auth", c, timeout=1500, deadlock=False, workers=2), parts))
     scen = []
     kinds = {}
     nesc = 0
-    for c in E.emitted(res, "@S@"):
-        c["sc"] = len(scen) + 1
-        kinds[c["kind"]] = kinds.get(c["kind"], 0) + 1
-        nesc += 1 if c.get("esc") else 0
-        scen.append(c)
+    for c, res in zip(parts, ress):
+        E.require_design_ok(ctx, res, c)
+        for x in E.emitted(res, "@S@"):
+            x["sc"] = len(scen) + 1
+            kinds[x["kind"]] = kinds.get(x["kind"], 0) + 1
+            nesc += 1 if x.get("esc") else 0
+            scen.append(x)
+    cfg += "{1,2,3}.cfg"
     # deterministic order, then shuffled by the seed so that independent cases do not depend on order
     scen.sort(key=lambda c: json.dumps({k: v for k, v in c.items() if k != "sc"}, sort_keys=True))
     ctx.rng.shuffle(scen)
@@ -78,11 +101,16 @@ def run(ctx):
         sum(len(r["probes"]) - 1 for r in got if r["ev"] == "Bl")
     ctx.cov["distinct_nontrivial"] = len(scen)
     ctx.cov["cases"] = kinds
-    ctx.cov["rule"] = ("every case enumerated by TLC executed against a fresh logic.ServerManager: simple-auth flag sets x "
+    ctx.cov["rule"] = ("every case enumerated by TLC executed against a real logic.ServerManager: simple-auth flag sets x "
                        "8 protocol-directions x secret forms x override secrets (real RTMP handshake+commands, HTTP-FLV/TS "
                        "through HttpServerHandler, RTSP ANNOUNCE/DESCRIBE text, HLS through a ServeMux); RTSP auth "
-                       "challenge/credential sequences; kick per session kind; black-list probes in real time; every "
-                       "request path / stream name over the token alphabet, observed through planted files and the file tree")
+                       "challenge/credential sequences over two connections of one server (nonce of this connection, of the "
+                       "other live one, of a closed one, invented, empty); spellings of HLS request paths (letter case and "
+                       "percent-escapes of prefix, stream name, fixed file names, extension; trailing / duplicate slashes, dot "
+                       "segment) x flag configuration x secret x black-listed address, observed through tagged planted files; "
+                       "spellings of HTTP-FLV/TS pull paths; kick per session kind (incl. HLS sessions) with and without a "
+                       "peer session; black-list probes in real time (IPv4/IPv6, two entries, five URL forms); every request "
+                       "path / stream name over the token alphabet, observed through planted files and the file tree")
     for c in scen[:3]:
         ctx.sample({k: v for k, v in c.items() if v not in ("", [], False, 0) or k == "kind"})
     rej = E.validate(ctx, "Trace_Auth", "Trace_Auth.cfg", rows)
